@@ -29,3 +29,30 @@ package types
 //@   trusted generated code (CloneVT)
 //@   ensures copy: s != nil ==> result != nil && fresh(result) && result.Path == s.Path && result.Mode == s.Mode && result.Uid == s.Uid && result.Gid == s.Gid && result.Size == s.Size && result.ModTime == s.ModTime && result.Linkname == s.Linkname && result.Devmajor == s.Devmajor && result.Devminor == s.Devminor
 //@   ensures nilcopy: s == nil ==> result == nil
+
+// ---------------------------------------------------------------------------
+// hand-optimised decoders (C20): for every byte string and every prior *m no
+// index, slice bound or make size is out of range. Loop invariants of the form
+// 0 <= x are inferred on every run (Houdini), integers are exact bit-vectors, so
+// the wrap-around checks (postIndex < 0) are handled as written.
+// The decoder copies: a slice field it assigns is the old backing array or a
+// fresh one, never the input buffer.
+// ---------------------------------------------------------------------------
+
+//@ effectdecl DecodedCopying()
+
+//@ func Packet.UnmarshalVT
+//@   property C20
+//@   mode bv
+//@   houdini
+//@   requires m != nil
+//@   modifies *m, type Stat, array byte, array string, maps string []byte
+//@   posteffect DecodedCopying()
+
+//@ func Stat.UnmarshalVT
+//@   property C20 C19
+//@   mode bv
+//@   houdini
+//@   requires m != nil
+//@   modifies *m, array byte, array string, m.Xattrs[*]
+//@   loop 0 invariant xattrs_own: m.Xattrs == old(m.Xattrs) || fresh(m.Xattrs)
